@@ -249,12 +249,33 @@ def call_site(chk):
     # must be refused when subsamples are requested, otherwise every later file's halos get slices of the first directory's particles
     sfp = src.func(CAT, CLS + '_setup_file_paths')
     waived = any(isinstance(n, ast.If) and 'halo_lc' in unparse(n.test) and any(isinstance(x, ast.Raise) for x in ast.walk(n)) for n in walk_no_nested(sfp))
+    lc_selection(chk)
     refuse = [r for r in _foreign_dir_refusals(lc, ldefs)]
     before_load = bool(refuse) and all(r.lineno < min([n.lineno for n in withs] or [10**9]) for r in refuse)
     chk.check((not waived) or before_load, 'C01-R9', CAT, CLS + '_load_halo_lc_subsamples',
               'light cone: halo files from another directory than the particle file are refused before the particle file is read', '',
               'a list of light-cone halo files from several directories is accepted (the mixed-catalog test is waived for light cones) while only '
               '<first directory>/lc_pid_rv.asdf is loaded: halos of the later files are given slices of the first directory\'s particles', node=lc, nontrivial=False)
+
+
+def lc_selection(chk):
+    """The particle file of a halo light cone holds the unpacked columns only ("no unpacking", see _load_halo_lc_subsamples): the raw names
+    rvint / packedpid that `subsamples=True` expands to in passthrough mode do not exist there (KeyError 'rvint', F47).  The selection
+    for a light cone is therefore made without the passthrough expansion."""
+    src = chk.src
+    init = src.func(CAT, CLS + '__init__')
+    calls = [n for n in walk_no_nested(init) if isinstance(n, ast.Call) and isinstance(n.func, ast.Attribute) and n.func.attr == '_setup_load_subsamples']
+    ok, got = False, None
+    if len(calls) == 1:
+        kw = [k.value for k in calls[0].keywords if k.arg == 'passthrough'] or list(calls[0].args[1:2])
+        got = unparse(kw[0]) if kw else None
+        ok = got is not None and got.replace('(', '').replace(')', '') in ('passthrough and not halo_lc', 'not halo_lc and passthrough', 'False if halo_lc else passthrough',
+                                                                        'passthrough if not halo_lc else False', 'passthrough and not self.halo_lc')
+    lc = src.func(CAT, CLS + '_load_halo_lc_subsamples')
+    maps = any(isinstance(n, ast.Dict) and {'rvint', 'packedpid'} & {getattr(k_, 'value', None) for k_ in n.keys} for n in ast.walk(lc))
+    chk.check(ok or maps, 'C01-R9', CAT, CLS + '__init__', 'light cone: the subsample selection does not use the passthrough expansion to raw column names', f'passthrough={got}',
+              f'_setup_load_subsamples is called with passthrough={got}: with passthrough=True and subsamples=True the selection becomes rvint / packedpid, which the light-cone '
+              'particle file (unpacked pos, vel, pid columns) does not hold: KeyError instead of a catalog for an accepted option combination', node=calls[0] if calls else init, nontrivial=False)
 
 
 def _foreign_dir_refusals(lc, ldefs):
